@@ -584,6 +584,18 @@ def timedelta_family(tier, rng):
             rng.choice(_TD_PARTS) for _ in range(k))
     yield "4w 2d 7h 12m 0.00001s"
     yield "4w 2.5d 7h 12m 0.001s"
+    # parts that fit datetime.timedelta one by one while their sum does not
+    # (and the other way round): the result is a value or a ValueError
+    edge = ["999999999d", "-999999999d", "142857142w", "23999999976h",
+            "86399999999999s", "1439999999940m", "9e8d", "2e7w", "1d", "24h",
+            "-1s", "1s", "-24h", "0.000001s", "-0.000001s", "86399s",
+            "999999999.9d", "1e9d", "-1e9d"]
+    for a in edge:
+        yield a
+        for b in edge:
+            yield a + " " + b
+    for _ in range(300 if tier == "quick" else 5000):
+        yield " ".join(rng.choice(edge) for _ in range(rng.randint(3, 5)))
 
 
 _COMPONENTS = ["", ".", "..", "d", "f", "sub", "l", "ld", "dang", "nope",
